@@ -5,7 +5,7 @@ import re
 from pathlib import Path
 
 VERIF = Path(__file__).resolve().parent.parent
-FOUND_BY_CHECKS = {'9b7d799', 'a0e19e2', '5d33139', '5204afc', 'b4f39a8', 'd8599a0'}
+FOUND_BY_CHECKS = {'9b7d799', 'a0e19e2', '5d33139', '5204afc', 'b4f39a8', 'd8599a0', 'fd1ba40', '12d63a4'}
 
 
 def fixed_table():
